@@ -55,7 +55,6 @@ sharp): environment variable ``PCV_MUTATE`` = comma separated list of
     dotdot       file scripts are stored as <data>/scripts/../scripts/<name>
     noexclude    explicit exclude patterns are ignored for the wheel
     droprecord   the last _add_file call is not recorded in RECORD
-    pthabs       (nothing) placeholder, ignored
 """
 
 from __future__ import annotations
@@ -120,9 +119,6 @@ if "unsorted" in mut:
         for file in sorted(to_add, key=lambda x: rank.get(str(x.path), -1)):
             self._add_file(wheel, file.path, file.relative_to_target_root())
     WheelBuilder._copy_module = _copy_module
-    _orig_ffa = SdistBuilder.find_files_to_add
-    class _Ranked(set):
-        pass
     _orig_sorted_build = SdistBuilder.build
     import builtins
     def _sd_build(self, target_dir=None):
